@@ -11,7 +11,7 @@ use std::collections::BTreeMap;
 pub struct C09;
 
 /// stage-1 expressions over dsp's parameter x (and the helper cnt)
-const EXPRS: [&str; 16] = [
+const EXPRS: [&str; 20] = [
     "x + 1.0",
     "x * x - 0.5",
     "cnt(x)",
@@ -28,6 +28,10 @@ const EXPRS: [&str; 16] = [
     "x |> cnt",
     "{\n    let v = x\n    let g = | | {\n      v = v + 1.0\n      v\n    }\n    g() + v\n  }",
     "0.1 + 0.2",
+    "{\n    let (a, (b, c)) = (x, (2.0, 3.0))\n    a + b * 10.0 + c * 100.0\n  }",
+    "{\n    let ((a, (b, c)), (d, e)) = ((x, (2.0, 3.0)), (4.0, 5.0))\n    a + b * 10.0 + c * 100.0 + d * 1000.0 + e * 10000.0\n  }",
+    "{\n    let (((p, q), r), (s, (t, u))) = (((x, 2.0), 3.0), (4.0, (5.0, 6.0)))\n    p + q * 10.0 + r * 100.0 + s * 1000.0 + t * 10000.0 + u * 100000.0\n  }",
+    "{\n    let r = {a = x, b = (2.0, 3.0)}\n    let r2 = {r <- a = 7.0}\n    r2.a + r.a + r2.b.1\n  }",
 ];
 /// contexts: (name, staged text with @E@, expansion text with @E@)
 const CONTEXTS: [(&str, &str, &str); 9] = [
